@@ -163,6 +163,17 @@ NoFalsePositive == (Verdict /\ ~PoleAccept(cs)) => Meets
 BranchFree ==
     /\ \A i \in 1..4 : Accept([cs EXCEPT ![i] = <<Turn(cs[i][1]), cs[i][2]>>], box) = Verdict
     /\ Accept(cs, [box EXCEPT !.lonmin = Turn(@), !.lonmax = Turn(box.lonmin) + (box.lonmax - box.lonmin)]) = Verdict
+\* A multi-image TOAST tiling prunes its downsampling stage with the UNION of the per-image footprint filters
+\* (fits_tiler._tile_toast: `for filter in filters: if filter(tile): return True`).  The union is taken over the
+\* ENTRIES of the collection (a sequence: the same file may be listed more than once with different HDUs), and it
+\* has no false negative for the union of the boxes, whatever the order and whether or not entries coincide.
+MeetsB(b) == /\ LatMeets(cs, b.latmin, b.latmax)
+             /\ (TouchesPole(cs) \/ ArcMeets(hull[1], hull[2], b.lonmin, b.lonmax))
+UnionVerdict(tile, boxes) == \E n \in DOMAIN boxes : Accept(tile, boxes[n])
+OtherBox == [box EXCEPT !.lonmin = @ + PI, !.lonmax = @ + PI]        \* a second footprint, half a turn away
+UnionNoFalseNegative ==
+    \A boxes \in {<<box, OtherBox>>, <<OtherBox, box>>, <<box, box>>} :
+        (\E n \in DOMAIN boxes : MeetsB(boxes[n])) => UnionVerdict(cs, boxes)
 \* the sorting network sorts; the unwrap loop ends sorted with exactly the minimal arc
 SortOK == LET s == Sort4(Lons(cs)) IN \A i \in 1..3 : s[i] <= s[i + 1]
 UnwrapOK == LET s == Unwrap(Sort4(Lons(cs)))
